@@ -20,7 +20,7 @@ CHECKS = {
    design="DESIGN.md section 2 / C09"),
  "C12": dict(
    technique="differential runtime monitor: compile_with_constants vs. the literally substituted program (values computed by the harness in wrapping arithmetic of the constant's type), plus fault injection on the supplied constants",
-   text="Exploration: generated const declarations (external values, references to earlier consts, nested min/max/+/-; bool, unsigned, signed, usize incl. sizes 0 and 1, wrapping intermediates) used as operands, array sizes, repeat counts, loop trip counts, join sizes and number of parties; array sizes written as inline const exprs `const { A - B + C }` with underflowing intermediates (the compiler's second const evaluator), also over const-sized rows; a value of every such parameter through parse_arg and literal_arg of both programs; party sizes, output size and flag/reason/value on 256 random inputs per case; missing entry / missing party / mistyped literal / mixed faults with inspection of the returned error.",
+   text="Exploration: generated const declarations (external values, references to earlier consts, nested min/max/+/-; bool, unsigned, signed, usize incl. sizes 0 and 1, wrapping intermediates) used as operands, array sizes, repeat counts, loop trip counts, join sizes and number of parties; array sizes written as inline const exprs `const { A - B + C }` with underflowing intermediates (the compiler's second const evaluator), also over const-sized rows; a value of every such parameter through parse_arg and literal_arg of both programs; struct / enum definitions whose fields mention the constant in arbitrary positions (definition probe) and functions whose only parameter is a const-sized array (one party per element, sole array probe), both against the substituted program; party sizes, output size and flag/reason/value on 256 random inputs per case; missing entry / missing party / mistyped literal / mixed faults with inspection of the returned error.",
    note="The substituted program's own semantics are covered by C01; usize constants use 32-bit wrapping.",
    design="DESIGN.md section 2 / C12"),
  "C08": dict(
